@@ -8,6 +8,7 @@ import (
 	"math/rand"
 	"os"
 	"runtime"
+	"runtime/debug"
 	"strings"
 	"sync"
 	"time"
@@ -294,10 +295,17 @@ func (c *c22Case) describe() map[string]any {
 	return map[string]any{"case": c.Index, "algorithm": c.Alg.String(), "fragment_style": c.Style, "pipe_seed": c.Seed, "messages(type/size/flushes)": shape}
 }
 
-func genC22Case(r *rand.Rand, index int, largeEvery int) *c22Case {
+func genC22Case(r *rand.Rand, index int, largeEvery int, quick bool) *c22Case {
 	c := &c22Case{Index: index, Seed: r.Int63(), Style: r.Intn(fragStyles)}
 	c.Alg = []compression.Algorithm{compression.Algorithm_AlgorithmNone, compression.Algorithm_AlgorithmDeflate}[index%2]
 	n := 1 + r.Intn(30)
+	// Messages >= 1 MiB are expensive under the race detector (shadow memory
+	// of every large allocation is remapped), so only every largeEvery-th
+	// pair of cases (one per algorithm) carries them.
+	wantLarge := (index/2)%largeEvery == 0
+	if wantLarge && quick && (c.Style == 1 || c.Style == 2) {
+		c.Style = 3 // a megabyte in 1..64-byte reads costs ~10 s under -race; thorough keeps it
+	}
 	maxLarge := 3 << 20
 	largeBudget := 2
 	if c.Style == 1 || c.Style == 2 {
@@ -305,10 +313,6 @@ func genC22Case(r *rand.Rand, index int, largeEvery int) *c22Case {
 		maxLarge = (1 << 20) + 4096
 		largeBudget = 1
 	}
-	// Messages >= 1 MiB are expensive under the race detector (shadow memory
-	// of every large allocation is remapped), so only every largeEvery-th
-	// pair of cases (one per algorithm) carries them.
-	wantLarge := (index/2)%largeEvery == 0
 	for i := 0; i < n; i++ {
 		class := []int{0, 1, 1, 1, 2, 2, 2, 3}[r.Intn(8)]
 		if wantLarge && largeBudget > 0 && (r.Intn(n) == 0 || i == n-1) {
@@ -507,7 +511,6 @@ func probePrefix(alg compression.Algorithm, prefix []byte, seed int64, style int
 	var rerr error
 	done := make(chan struct{})
 	var before, after runtime.MemStats
-	runtime.GC()
 	runtime.ReadMemStats(&before)
 	go func() {
 		defer close(done)
@@ -611,8 +614,13 @@ func c22() {
 	c22Oversize(r)
 	r.Note("oversize_phase_s", time.Since(t0).Seconds())
 
-	n := r.Pick(400, 12000)
-	largeEvery := r.Pick(16, 8)
+	// Every case builds a fresh stack (four 64 KiB buffers, a DEFLATE state of
+	// about a megabyte); with the default GC target the tiny live heap makes the
+	// collector run continuously, which under -race on a busy machine costs far
+	// more than the work itself.
+	debug.SetGCPercent(800)
+	n := r.Pick(240, 12000)
+	largeEvery := r.Pick(30, 8)
 	seeds := make([]int64, n)
 	rng := r.Rand("cases")
 	for i := range seeds {
@@ -623,7 +631,7 @@ func c22() {
 	fixedAlgs := []compression.Algorithm{compression.Algorithm_AlgorithmNone, compression.Algorithm_AlgorithmDeflate}
 	build := func(index int) *c22Case {
 		if index < n {
-			return genC22Case(rand.New(rand.NewSource(seeds[index])), index, largeEvery)
+			return genC22Case(rand.New(rand.NewSource(seeds[index])), index, largeEvery, r.Quick())
 		}
 		// Deterministic hand-made cases at the end: empty-only, empty/large/empty, tiny with 1-byte fragments.
 		k := index - n
@@ -659,6 +667,13 @@ func c22() {
 				t0 := time.Now()
 				r.Guard(c.describe(), func() { runC22Case(r, c) })
 				r.Eval(1)
+				if os.Getenv("VERIF_DEBUG") != "" {
+					tot := 0
+					for _, m := range c.msgs {
+						tot += proto.Size(m)
+					}
+					fmt.Printf("casetime %d %.3f alg=%s style=%d msgs=%d bytes=%d\n", c.Index, time.Since(t0).Seconds(), c.Alg, c.Style, len(c.msgs), tot)
+				}
 				if d := time.Since(t0); d > 2*time.Second && os.Getenv("VERIF_DEBUG") != "" {
 					fmt.Printf("slow case %d: %.1fs alg=%s style=%d msgs=%d\n", c.Index, d.Seconds(), c.Alg, c.Style, len(c.msgs))
 				}
